@@ -369,8 +369,16 @@ def oracle_c15(dump, max_inputs=5):
                     if ref[o] is not at:
                         return (f'evaluate_at: output position {pos} ({o}) reported {at} under partial {combo} but '
                                 f'completion {vec} gives {ref[o]}')
-        for name, fn in (('evaluate_full_circuit', lambda: c.evaluate_full_circuit(dict(asg))),
-                         ('evaluate_circuit', lambda: c.evaluate_circuit(dict(asg)))):
+        variants = [('evaluate_full_circuit', lambda: c.evaluate_full_circuit(dict(asg))),
+                    ('evaluate_circuit', lambda: c.evaluate_circuit(dict(asg)))]
+        if None in combo:
+            # the undefined marker as an EQUAL but not identical object (operators._Undefined compares equal to every
+            # instance of its class and hashes alike: a deep copy or a pickle round trip of an assignment, or of an
+            # earlier result, carries such an instance); it is the same partial assignment
+            import copy
+            variants += [('evaluate_full_circuit (deep-copied assignment)', lambda: c.evaluate_full_circuit(copy.deepcopy(asg))),
+                         ('evaluate_circuit (deep-copied assignment)', lambda: c.evaluate_circuit(copy.deepcopy(asg)))]
+        for name, fn in variants:
             res = fn()
             for l, v in res.items():
                 if st_name(v) == 'U':
